@@ -142,6 +142,7 @@ def check_model(tool, seed, idx, known, n_repro=4, mode="C"):
         posn = p
     info["look_alike"] = any(any(x in f for x in ("Vtbl", "RetTmp", "Container", "Context", "CGlue")) for (_, f) in model.foreign)
     info["two_ctx"] = len(set(i.ctx for i in model.insts)) >= 2
+    info["generic_ctx"] = bool(getattr(model, "generic_ctx", None)) and info["two_ctx"]
     info["sized_rettmp"] = any(getattr(t, "rettmp_sized", False) for t in model.traits.values())
     info["suffix_names"] = any(a != b and a.endswith(b) for a in model.traits for b in model.traits)
     # every sized temporary-return field must still be in its container
